@@ -129,7 +129,7 @@ def generate_q(ctx):
                 status[name] = None
             except Exception as e:
                 status[name] = f'{type(e).__name__}: {e}'
-                out += f'(* {name}: UNSUPPORTED {e} *)\n'
+                out += f'(* {name}: UNSUPPORTED {P.comment_safe(e)} *)\n'
     ctx.write('Gen_bivq.v', out)
     return status
 
@@ -143,19 +143,19 @@ def generate(ctx):
         status['bivariate_percent_point'] = None
     except (P.Unsupported, Exception) as e:   # fail-closed
         status['bivariate_percent_point'] = f'{type(e).__name__}: {e}'
-        out += f'(* bivariate_percent_point: UNSUPPORTED {e} *)\n'
+        out += f'(* bivariate_percent_point: UNSUPPORTED {P.comment_safe(e)} *)\n'
     try:
         out += translate_base_log_pdf(os.path.join(BIV, 'base.py'))
         status['bivariate_log_probability_density'] = None
     except Exception as e:
         status['bivariate_log_probability_density'] = f'{type(e).__name__}: {e}'
-        out += f'(* bivariate_log_probability_density: UNSUPPORTED {e} *)\n'
+        out += f'(* bivariate_log_probability_density: UNSUPPORTED {P.comment_safe(e)} *)\n'
     try:
         out += translate_base_sample(os.path.join(BIV, 'base.py'))
         status['bivariate_sample'] = None
     except Exception as e:
         status['bivariate_sample'] = f'{type(e).__name__}: {e}'
-        out += f'(* bivariate_sample: UNSUPPORTED {e} *)\n'
+        out += f'(* bivariate_sample: UNSUPPORTED {P.comment_safe(e)} *)\n'
     orig = P.ExprTr
     P.ExprTr = KTr
     try:
@@ -178,7 +178,7 @@ def generate(ctx):
                     ctx.extra.setdefault('generated', []).append(name)
                 except Exception as e:
                     status[name] = f'{type(e).__name__}: {e}'
-                    out += f'(* {name}: UNSUPPORTED {e} *)\n'
+                    out += f'(* {name}: UNSUPPORTED {P.comment_safe(e)} *)\n'
             for nm, fnc in (('theta_domain', P.translate_theta_domain), ('compute_theta', P.translate_compute_theta)):
                 name = f'{cls.lower()}_{nm}'
                 try:
@@ -189,7 +189,7 @@ def generate(ctx):
                     status[name] = None
                 except Exception as e:
                     status[name] = f'{type(e).__name__}: {e}'
-                    out += f'(* {name}: UNSUPPORTED {e} *)\n'
+                    out += f'(* {name}: UNSUPPORTED {P.comment_safe(e)} *)\n'
     finally:
         P.ExprTr = orig
     ctx.write('Gen_biv.v', out)
